@@ -1665,7 +1665,7 @@ pub fn generate(property: &str, profile: Profile, seed: u64, run: u64) -> Trace 
         aux_seed: rng.next_u64(),
     };
     let ptype = *rng.pick(&[PType::Installer, PType::Installer, PType::Patch, PType::Transform]);
-    let big_script = profile == Profile::Script && rng.chance(200);
+    let big_script = profile == Profile::Script && run % 6 == 4;
     let (init, model) = if profile == Profile::Foreign || (profile == Profile::Corrupt && rng.chance(300)) || (profile == Profile::ReadOnly && rng.chance(300)) || (profile == Profile::Reject && rng.chance(250)) || (profile == Profile::Schema && rng.chance(150)) || big_script {
         let spec = gen_foreign_spec(&mut rng, big_script);
         cp_set = vec![if spec.codepage == 0 { 65001 } else { spec.codepage }];
